@@ -96,7 +96,8 @@ def build(c, L, pol, cal=None):
         return stim.notch_noise(fs, c['fn'], c['q'], L, c['n'] / fs, seed=c['seed'], polarity=pol, calibration=cal)
     if k == 'bln':
         if c.get('chunks'):
-            f = stim.BandlimitedNoiseFactory(fs, c['seed'], L, c['fl'], c['fh'], 1, 1, 80, polarity=pol, calibration=cal)
+            f = stim.BandlimitedNoiseFactory(fs, c['seed'], L, c['fl'], c['fh'], 1, 1, 80, polarity=pol, calibration=cal,
+                                            discard_initial_samples=c.get('discard', True))
             return np.concatenate([f.next(n) for n in chunks_of(c)])
         return stim.bandlimited_noise(fs, L, c['fl'], c['fh'], c['n'] / fs, polarity=pol, seed=c['seed'], calibration=cal)
     if k == 'fir':
@@ -133,12 +134,19 @@ def level_definition(c, cal, L, a):
         back = float(np.asarray(cal.get_db(f, rms)))
         cycles = f * n / fs
         whole = c.get('whole')
-        tol = 1e-9 if whole else 0.1
-        if not whole and cycles < 20:
-            return None
+        if whole:
+            tol = 1e-9
+        else:
+            # mean square of sqrt(2)*A*cos(theta0 + k*w), k < n, is A^2 * (1 + S/n) with
+            # |S| = |sum cos(2*theta_k)| <= 1/|sin(w)|, w = 2*pi*f/fs: the exact worst-case departure of a
+            # finite, non-whole-cycle segment (in dB: 10*log10(1 +- bound)); 1e-6 dB on top for round-off
+            bound = 1.0 / (n * max(abs(np.sin(2 * np.pi * f / fs)), 1e-12))
+            if bound >= 0.5:
+                return None
+            tol = -10 * np.log10(1 - bound) + 1e-6
         if abs(back - L) > tol or abs(db_of(rms) - db_of(sf)) > tol:
             return (f'tone at {L!r} dB, {f!r} Hz ({cycles:.6g} cycles): RMS {rms!r}, get_sf = {sf!r}, measured back '
-                    f'through the calibration {back!r} dB (tolerance {tol} dB)')
+                    f'through the calibration {back!r} dB (tolerance {tol:.3g} dB)')
     elif k in ('sam', 'sam_factory') and c.get('whole'):
         z = util.csd(a, detrend=None)
         eq = float(np.sqrt(3.0 / 8.0)) if c['eq_power'] else 1.0
@@ -200,7 +208,10 @@ def is_flat_cal(c):
 # level-independent and reaches 3e-8 (120 random designs); 1e-6 is the stated tolerance there.  A state that does
 # not scale with the level departs by (residual / sf), which grows without bound as the level falls — hence the
 # additional low-level pair below.  float32 wav playback: 1e-6.
-LIN_TOLS = {'bln': 1e-6, 'wav': 1e-6}    # also the model-vs-code tolerance of the recursive band-pass
+# Measured on the unchanged library over 400 random designs from this generator: the departure of the direct-form
+# elliptic band-pass is level-independent round-off amplification, median 6e-11, worst 5.9e-6 of full scale
+# (fs 25 kHz, 583-1081 Hz); 1e-3 leaves a factor > 100.  A state that does not scale departs by ~1.
+LIN_TOLS = {'bln': 1e-3, 'wav': 1e-6}    # also the model-vs-code tolerance of the recursive band-pass
 FILTERED = ('bbn', 'notch', 'bln', 'fir', 'shaped')
 
 
@@ -208,6 +219,12 @@ def linearity(c, L, d, a=None):
     a = build(c, L, 1) if a is None else a
     b = build(c, L + d, 1)
     full = float(np.max(np.abs(b))) if len(b) else 0.0
+    if c['kind'] in FILTERED and 0 < c.get('n', 0) < 1000:
+        # "full scale" of a noise is not the peak of its first few samples: take it from 1000 samples of the
+        # same noise (otherwise a 2-sample draw whose samples happen to be small inflates pure round-off)
+        c2 = dict(c, n=1000)
+        c2.pop('chunks', None)
+        full = max(full, float(np.max(np.abs(build(c2, L + d, 1)))))
     if a.shape != b.shape:
         return f'level changes the shape: {a.shape} vs {b.shape}'
     if not np.all(np.isfinite(a)) or not np.all(np.isfinite(b)):
@@ -230,7 +247,8 @@ def bln_state_residual(c, cal):
     against the quietest level of the property's range (-20 dB)."""
     from scipy import signal
     from psiaudio import stim
-    f = stim.BandlimitedNoiseFactory(c['fs'], c['seed'], -20.0, c['fl'], c['fh'], 1, 1, 80, polarity=1, calibration=cal)
+    f = stim.BandlimitedNoiseFactory(c['fs'], c['seed'], -20.0, c['fl'], c['fh'], 1, 1, 80, polarity=1, calibration=cal,
+                                            discard_initial_samples=c.get('discard', True))
     z = np.asarray(f.initial_bp_zi, dtype=float)
     if not np.any(z):
         return None
@@ -282,8 +300,20 @@ def gen_cal(rng, kind, fs, freqs):
         ])
     if kind == 'interp':
         knots = sorted({0.0, float(fs)} | {float(round(rng.uniform(1, fs - 1))) for _ in range(rng.randint(2, 6))})
-        return {'c': 'interp', 'G': G, 'tbl': [[f, round(rng.uniform(70, 130), 2)] for f in knots]}
-    return {'c': 'point', 'G': G, 'tbl': [[float(f), round(rng.uniform(70, 130), 2)] for f in sorted(set(freqs))]}
+        return _table_repr(rng, {'c': 'interp', 'G': G, 'tbl': [[f, round(rng.uniform(70, 130), 2)] for f in knots]})
+    return _table_repr(rng, {'c': 'point', 'G': G,
+                             'tbl': [[float(f), round(rng.uniform(70, 130), 2)] for f in sorted(set(freqs))]})
+
+
+def _table_repr(rng, k):
+    """How the caller writes the table down: float lists (default), a list whose first sensitivity is a Python int
+    followed by non-integers, tuples, or ndarrays -- the same numbers in every case."""
+    r = rng.choice([None, None, 'intfirst', 'tuple', 'ndarray'])
+    if r == 'intfirst':
+        k['tbl'][0][1] = float(round(k['tbl'][0][1]))
+    if r:
+        k['repr'] = r
+    return k
 
 
 def gen_case(rng, kind, calkind, quick):
@@ -331,6 +361,8 @@ def gen_case(rng, kind, calkind, quick):
             c['chunks'] = rng.chunks(n, 4)
         if kind == 'notch':
             c.update(fn=float(rng.randint(500, int(fs / 2) - 500)), q=rng.choice([1.33, 5.0, 30.0]))
+        if kind == 'bln' and c.get('chunks') and rng.random() < 0.4:
+            c['discard'] = False        # constructor option of the factory (the default True is the other 60 %)
         if kind in ('bln', 'fir'):
             fl = float(rng.randint(500, 1500))
             c.update(fl=fl, fh=float(rng.randint(int(fl) + 300, int(fs / 4) - 100)))
@@ -442,7 +474,8 @@ class C08(FloatSpec):
                 f = stim.NotchFilterFactory(fs=fs, notch_frequency=c['fn'], q=c['q'], input_factory=nf)
                 b, a, z0, discard, pin, pout = f.b, f.a, 'zero', 0, pol, 1.0
         elif k == 'bln':
-            f = stim.BandlimitedNoiseFactory(fs, seed, L, c['fl'], c['fh'], 1, 1, 80, polarity=1, calibration=cal)
+            f = stim.BandlimitedNoiseFactory(fs, seed, L, c['fl'], c['fh'], 1, 1, 80, polarity=1, calibration=cal,
+                                            discard_initial_samples=c.get('discard', True))
             # code as it is: state = lfilter_zi(b, a) (unit-step steady state, NOT scaled with the level), then
             # ceil(fs) samples are discarded; its zero-input response has decayed to < 1e-80 by then (see oracle)
             low, high, b, a = f.low, f.high, f.b, f.a
